@@ -144,6 +144,11 @@ static void gen_with(uint64_t seed, const std::string &prop, Plan &plan, const G
             if (!had_duplex && !both_nb && r.chance(0.04)) plan.ops.push_back(Op{r.chance(0.5) ? ct : st, "setblk", {(int64_t)r.below(2)}, "", {}});
         }
         int closer = r.chance(0.5) ? ct : st, other = closer == ct ? st : ct;
+        if (gp.noise) {
+            // C16: a settle point - everything delivered, both ends finished - where readiness is read from the kernel
+            plan.ops.push_back(Op{ct, "settle", {(int64_t)r.below(4)}, "", {}});
+            plan.ops.push_back(Op{st, "settle", {(int64_t)r.below(4)}, "", {}});
+        }
         plan.ops.push_back(Op{closer, "finish", {1}, "", {}, -1});
         plan.ops.push_back(Op{closer, "close", {}, "", {}, -1});
         plan.ops.push_back(Op{other, "finish", {1}, "", {}, -1});
@@ -203,6 +208,8 @@ struct Script {
     bool sticky = false;         // rely on the awaited condition staying in effect (xcm_await only when it changes)
     int last_cond = -1;
     std::deque<int> stash;       // messages already obtained by a speculative receive (their lengths)
+    bool settled = false;        // reached its settle point (all data operations done, xcm_finish == 0)
+    bool settle_done = false;    // finished inspecting at the settle point (nobody closes before both have)
     bool failed = false;         // a terminal condition ended the script early
     int eof_errno = 0;           // recv_eof: the close was reported as this errno instead of 0
     bool done = false;
@@ -384,6 +391,67 @@ static bool do_stream_duplex(Script &sc, const Op &op) {
     return true;
 }
 
+static bool kernel_conn_idle(XSock *x) {
+    auto f = x_kernel_conn(x);
+    if (auto t = std::dynamic_pointer_cast<TcpSock>(f)) return K->conn_idle_tcp(t) && !t->dead && !(t->in && t->in->fin_delivered);
+    if (auto u = std::dynamic_pointer_cast<UnixSock>(f)) { auto p = u->peer.lock(); return u->rq.empty() && p && !p->closed && p->rq.empty() && !u->peer_closed; }
+    return false;
+}
+static bool do_finish(Script &sc, bool must);
+static Script *peer_script(Script &sc);
+
+// C16 settle point. Both ends have performed all their data operations; each finishes its outstanding
+// work and waits (harness-level, not through XCM) for the other to have done the same. With nothing
+// buffered or in flight in either direction the socket's epoll object - read straight from the
+// simulated kernel - must be quiet for condition 0 and for RECEIVABLE after an EAGAIN, and ready at once
+// for SENDABLE.
+static void do_settle_inspect(Script &sc, const Op &op, Script *ps);
+static void do_settle(Script &sc, const Op &op) {
+    XSock *x = sc.x;
+    Script *ps = peer_script(sc);
+    if (x->nonblocking && !do_finish(sc, true)) { sc.settled = sc.settle_done = true; return; }
+    sc.settled = true;
+    if (ps) {
+        block_until([ps] { return ps->settled || ps->failed || ps->done || ps->x->closed; }, -1, "settle barrier");
+        if (x->nonblocking && !G->stopping && !ps->failed && !ps->x->closed && ps->settled) do_settle_inspect(sc, op, ps);
+    }
+    sc.settle_done = true;
+    // nobody goes on to close while the other end is still looking
+    if (ps) block_until([ps] { return ps->settle_done || ps->failed || ps->done || ps->x->closed; }, -1, "settle exit barrier");
+}
+static void do_settle_inspect(Script &sc, const Op &op, Script *ps) {
+    XSock *x = sc.x;
+    (void)ps;
+    int variant = (int)op.arg(0);
+    auto inspect = [&](const char *what, bool want_ready) {
+        if (!kernel_conn_idle(x)) { G->count("probe.settle_not_idle"); return; }
+        bool ready = K->epoll_ready(x_fd(x));
+        G->count("probe.settle_inspected");
+        if (ready != want_ready)
+            G->violation(want_ready ? "C16.not_ready_when_met" : "C16.ready_when_idle", "%s: established connection, nothing buffered or in flight in either direction, %s: the socket's descriptor is %s; registrations: %s",
+                         x->label.c_str(), what, ready ? "readable" : "not readable", K->epoll_dump(x->xfd).c_str());
+    };
+    // (a) straight after the xcm_finish that returned 0, without a new xcm_await: the awaited condition is still 0
+    if (sc.last_cond == 0 && (variant & 1)) inspect("condition 0, right after xcm_finish returned 0", false);
+    // (b) RECEIVABLE after a receive that reported EAGAIN (this also empties TLS read-ahead and post-handshake records)
+    uint8_t b[64];
+    x_await(x, XCM_SO_RECEIVABLE);
+    sc.last_cond = XCM_SO_RECEIVABLE;
+    int rc = x_receive(x, b, sizeof(b));
+    if (rc >= 0 || errno != EAGAIN) { if (rc > 0) sc.stash.push_back(rc); return; }   // something did arrive (or the end): not an idle connection
+    inspect("condition RECEIVABLE after xcm_receive reported EAGAIN", false);
+    // (c) condition 0 set explicitly
+    x_await(x, 0);
+    sc.last_cond = 0;
+    inspect("condition 0", false);
+    // (d) a condition that is already met: an idle connection is SENDABLE
+    if (variant & 2) {
+        x_await(x, XCM_SO_SENDABLE);
+        inspect("condition SENDABLE", true);
+        x_await(x, 0);
+    }
+}
+
 static bool do_finish(Script &sc, bool must) {
     if (!sc.x->nonblocking) return true;   // blocking sockets have finished by definition (xcm_finish gives EINVAL)
     for (;;) {
@@ -439,6 +507,7 @@ static void run_script(Script &sc) {
         else if (op.kind == "srecv") ok = do_stream_recv(sc, op);
         else if (op.kind == "duplex") ok = do_duplex(sc, op);
         else if (op.kind == "sduplex") ok = do_stream_duplex(sc, op);
+        else if (op.kind == "settle") do_settle(sc, op);
         else if (op.kind == "finish") ok = do_finish(sc, op.arg(0) != 0);
         else if (op.kind == "tryrecv") {
             if (x->nonblocking && !CX->stream) {
@@ -511,6 +580,11 @@ static void run_script(Script &sc) {
 }
 
 static std::vector<std::unique_ptr<Script>> *scripts = nullptr;
+static Script *peer_script(Script &sc) {
+    if (!sc.x->peer) if (XSock *p = x_find_peer(sc.x)) x_pair(sc.x, p);
+    for (auto &o : *scripts) if (o->x == sc.x->peer) return o.get();
+    return nullptr;
+}
 static bool judged_sock(const XSock *x) { return x && !x->ignore_delivery && !x->dying; }
 
 static Script *make_script(const Plan &plan, int task, XSock *x, bool spec, const std::string &who) {
@@ -555,6 +629,21 @@ static void setup(const Plan &plan) {
         while (accepted < CX->nconn && !G->stopping) {
             if (srv->nonblocking) {
                 x_await(srv, XCM_SO_ACCEPTABLE);
+                // C16: a server socket awaiting ACCEPTABLE is readable iff a connection is pending (read from the kernel at one instant)
+                {
+                    bool pending = false, known = false;
+                    for (auto &kf : srv->kfiles) {
+                        if (auto t = std::dynamic_pointer_cast<TcpSock>(kf)) { known = true; if (!t->acceptq.empty()) pending = true; }
+                        if (auto u = std::dynamic_pointer_cast<UnixSock>(kf)) { known = true; if (!u->acceptq.empty()) pending = true; }
+                    }
+                    if (known) {
+                        bool ready = K->epoll_ready(x_fd(srv));
+                        G->count("probe.acceptable_inspected");
+                        if (ready != pending)
+                            G->violation(pending ? "C16.not_ready_when_met" : "C16.ready_when_idle", "server socket awaiting ACCEPTABLE with %s: its descriptor is %s; registrations: %s", pending ? "a connection pending" : "no connection pending",
+                                         ready ? "readable" : "not readable", K->epoll_dump(srv->xfd).c_str());
+                    }
+                }
                 if (!x_wait(srv)) break;
             }
             XSock *c = x_accept(srv, nullptr, strf("s?"));
